@@ -300,6 +300,54 @@ def shard_sym(arg):
     return res
 
 
+def check_sym_solve(flux, rname, grid, names, idx, res=None):
+    """two explicit iterations at CFL 0.4 (the library's own time step) on a grid with non-square cells and on its transpose / reflections: the
+    results (data and time) are the transformed results"""
+    nx, ny, lx, ly = grid
+    bcs = {t: bcd(n) for t, n in zip(("left", "right", "bottom", "top"), names)}
+    P = np.array([ALPHA[i] for i in idx]).T
+    q = cons2d(P)
+
+    def run(g, b, qq):
+        model = space.euler.euler2d(gamma=G)
+        msh = space.mesh2.mesh2d(*g)
+        disc = space.modeldisc.fvm2d(model, msh, space.recon(rname), b, numflux=flux)
+        f = space.field.fdata(model, msh, [np.array(x, float).copy() for x in qq])
+        with np.errstate(all="ignore"), core.time_limit(10.0):
+            return space.integ.explicit(msh, disc).solve(f, 0.4, stop={"maxit": 2})[-1]
+    a = run(grid, bcs, q)
+    out = []
+    if not all(np.all(np.isfinite(np.asarray(d))) for d in a.data):
+        return out
+    for kind in ("T", "X", "Y"):
+        g2 = (ny, nx, ly, lx) if kind == "T" else grid
+        b = run(g2, t_bcs(bcs, kind), t_fieldlike(q, nx, ny, kind))
+        want = t_fieldlike(a.data, nx, ny, kind)
+        if res is not None:
+            res.evals += 1
+            res.transitions += 2
+        sc = max(np.abs(np.asarray(d)).max() for d in a.data)
+        err = max(np.abs(np.asarray(x) - np.asarray(y)).max() for x, y in zip(b.data, want)) / sc
+        terr = abs(b.time - a.time) / abs(a.time)
+        if not (err <= 1e-12 and terr <= 1e-13):
+            out.append(("C15/symmetry-solve/%s/%s/%s" % ({"T": "transpose", "X": "reflect-x", "Y": "reflect-y"}[kind], flux, "-".join(names)),
+                        "%s %s grid %r boundaries %r data %r: after 2 explicit iterations at CFL 0.4 the %s problem is at t=%r with data off by %.3g (relative), the original at t=%r" % (
+                            flux, rname, grid, names, idx, {"T": "transposed", "X": "x-reflected", "Y": "y-reflected"}[kind], b.time, err, a.time)))
+    return out
+
+
+def shard_sym_solve(arg):
+    flux, rname, grid = arg
+    res = core.Res()
+    nx, ny = grid[0], grid[1]
+    for names in (("per", "per", "per", "per"), ("sym", "sym", "per", "per"), ("sym", "sym", "sym", "sym"), ("insub", "outsub", "sym", "sym")):
+        for idx in space.pattern_assignments(nx * ny, 3)[::2]:
+            res.nontrivial += 1
+            for s_, w in check_sym_solve(flux, rname, grid, names, idx, res):
+                res.violation(s_, w, {"kind": "symsolve", "flux": flux, "recon": rname, "grid": list(grid), "names": list(names), "idx": list(idx)})
+    return res
+
+
 def shard_sym_big(arg):
     """larger grids (odd/even, elongated) with all cyclic translates of the base patterns"""
     flux, rname, grid = arg
@@ -336,6 +384,8 @@ def run(ctx):
                 cfg.append((flux, rname, (nx, ny, 2.0, 0.75), "subset"))
     cfg.sort(key=lambda c: -(c[2][0] * c[2][1]) - (100 if c[3] == "subset" else 0))
     ctx.pmap("grid-symmetries", shard_sym, cfg)
+    ctx.pmap("grid-symmetries-of-a-solve", shard_sym_solve, [(fl, r, g) for fl in ("centered", "hlle") for r in ("extrapol2d1", "extrapol2dk:0.3333333333333333")
+                                                             for g in ((3, 2, 2.0, 0.75), (2, 4, 1.0, 3.0))])
     ctx.pmap("grid-symmetries-size-ladder", shard_sym_big, [(flux, rname, (nx, ny, 2.0, 0.75)) for flux in ("centered", "hlle") for rname in (recs if th else recs[:2])
                                                             for nx, ny in ((5, 4), (4, 5), (7, 2), (2, 7), (6, 3))])
     multi = [[(flux, rname, (nx, ny, 2.0, 0.75), "subset") for nx, ny in (((2, 3), (3, 2), (1, 2), (2, 1), (2, 2)) if th else ((1, 2), (2, 1), (2, 2), (1, 3)))]
@@ -345,6 +395,8 @@ def run(ctx):
 
 def replay(case):
     global G
+    if case["kind"] == "symsolve":
+        return check_sym_solve(case["flux"], case["recon"], tuple(case["grid"]), tuple(case["names"]), tuple(case["idx"]))
     if case["kind"] == "1d2d" and "gamma" in case:
         old, G = G, case["gamma"]
         try:
